@@ -90,11 +90,13 @@ def lanczos_tridiag(
 
     # Copy over alpha_0 and beta_0 to t_mat
     t_mat[0, 0].copy_(alpha_0)
-    t_mat[0, 1].copy_(beta_0)
-    t_mat[1, 0].copy_(beta_0)
+    k = 0  # (the loop below does not run when there is a single iteration)
+    if num_iter > 1:
+        t_mat[0, 1].copy_(beta_0)
+        t_mat[1, 0].copy_(beta_0)
 
-    # Compute the first new vector
-    q_mat[1].copy_(r_vec.div_(beta_0.unsqueeze(dim_dimension)))
+        # Compute the first new vector
+        q_mat[1].copy_(r_vec.div_(beta_0.unsqueeze(dim_dimension)))
 
     # Now we start the iteration
     for k in range(1, num_iter):
